@@ -64,6 +64,8 @@ Definition runs_post_validation (ok : okv) : bool := okv_eqb ok OkTrue || okv_eq
 
 (* the sampling loops of FormulaGrader / SumGrader / IntegralGrader.gen_evaluations, and var_blacklist *)
 Definition loop_events : list loop_event := [EvUpdate; EvAuthorEval; EvScrub; EvStudentEval; EvRestore].
+Definition sum_loop_events : list loop_event :=
+  [EvUpdate; EvAuthorEval; EvScrub; EvGuardVariable; EvStudentEval; EvRestore].
 Definition formula_blacklist : list blacklist_part := [BInstructorInSample; BSiblings].
 Definition summation_blacklist : list blacklist_part := [BInstructorInSample].
 
@@ -170,6 +172,7 @@ Fixpoint run_events (evs : list loop_event) (sample bl : names) (i : nat) (b : b
   | EvRestore :: r => run_events r sample bl i (b_update b sample i) acc
   | EvAuthorEval :: r => run_events r sample bl i b (mkSeen (seen_author acc ++ [b]) (seen_student acc))
   | EvScrub :: r => run_events r sample bl i (b_delete b bl) acc
+  | EvGuardVariable :: r => run_events r sample bl i b acc
   | EvStudentEval :: r => run_events r sample bl i b (mkSeen (seen_author acc) (seen_student acc ++ [b]))
   end.
 
@@ -441,16 +444,22 @@ Definition evaluate_sum (ev : evaluation) (O : sum_oracle) (E : env) (f : sumfie
                 let used := dedup (used_functions (s_lower f) ++ used_functions (s_upper f) ++ funcs_of t) in
                 match so_range O lo hi with
                 | None => inl GSummationError
-                | Some idx => match eval_terms ev E (s_variable f) (s_summand f) idx with
+                | Some idx =>
+                    (* parse(summand_str).check_scope(varscope + summation variable): the names of the summand
+                       are checked even when no term is summed *)
+                    match check_scope (bind_var E (s_variable f) (code_val [])) t with
+                    | Some e => inl (GEvalError e)
+                    | None => match eval_terms ev E (s_variable f) (s_summand f) idx with
                               | inl g => inl g
                               | inr vs => inr (so_total O vs, used)
                               end
+                    end
                 end
             end
         end
     end.
 
-Fixpoint sum_evaluations (ev : evaluation) (O : sum_oracle) (scope : names) (author student : sumfields) (Es : list env)
+Fixpoint sum_evaluations (ev : evaluation) (O : sum_oracle) (scope bl : names) (author student : sumfields) (Es : list env)
   : gout + (list (list (option val) * option val) * names) :=
   match Es with
   | [] => inr ([], [])
@@ -458,10 +467,13 @@ Fixpoint sum_evaluations (ev : evaluation) (O : sum_oracle) (scope : names) (aut
       match evaluate_sum ev O E author with
       | inl _ => inl GConfigError                   (* "Summation Error with author's stored answer" *)
       | inr (av, _) =>
+          (* an instructor variable already has a meaning, so cannot be the summation variable *)
+          if mem (s_variable student) bl then inl GSummationError
+          else
           match evaluate_sum ev O (restrict_env scope E) student with
           | inl g => inl g
           | inr (sv, used) =>
-              match sum_evaluations ev O scope author student r with
+              match sum_evaluations ev O scope bl author student r with
               | inl g => inl g
               | inr (l, _) => inr (([av], sv) :: l, used)
               end
@@ -483,30 +495,24 @@ Definition sum_check (ev : evaluation) (c : rcfg) (permitted : names) (O : sum_o
                                               s_lower inp; s_upper inp; s_summand inp; s_variable inp] in
     let sample := sample_names c vars_used [] in
     let scope := student_scope summation_blacklist c sample [] in
-    match sum_evaluations ev O scope author inp Es with
+    let bl := var_blacklist summation_blacklist (c_instructor c) sample [] in
+    match sum_evaluations ev O scope bl author inp Es with
     | inl g => g
     | inr (evals, used) => finish c permitted (compare evals) (sum_dict inp) used
     end.
 
 (* ================================================================================================
-   8. how MathExpression.check_scope REPORTS an undefined name (expressions.py:598-660), over explicit name lists.
-      The message is assembled as  template + " (did you mean '" + case variants + "'?)"  and only then
-      .format(bad names): when a defined name that differs from a bad name only by case contains a brace
-      (a_{1}, T_{1}^{2}), str.format fails and the student sees the generic error instead of UndefinedVariable.
+   8. how MathExpression.check_scope REPORTS an undefined name (expressions.py:598-660), over explicit name lists:
+      the first non-empty of bad variables / bad functions / bad suffixes decides the class.  (The message is
+      formatted with the offending names before the "did you mean" suggestions are appended, so the text of a
+      suggestion cannot disturb it.)
    ================================================================================================ *)
-Definition lower_c (c : Z) : Z := if is_upper c then c + 32 else c.
-Definition lower (s : str) : str := map lower_c s.
-Definition has_brace (s : str) : bool := existsb (fun c => (c =? 123) || (c =? 125)) s.
-
-Definition format_crashes (bad defined : names) : bool :=
-  existsb (fun d => has_brace d && existsb (fun b => str_eqb (lower d) (lower b)) bad) defined.
-
 Definition scope_report (vars funcs sufs : names) (t : tree) : option gout :=
   let bad_vars := filter (fun v => negb (mem v vars)) (vars_of t) in
-  if truthy bad_vars then Some (if format_crashes bad_vars vars then GGenericError else GEvalError EUndefVar)
+  if truthy bad_vars then Some (GEvalError EUndefVar)
   else
     let bad_funcs := filter (fun f => negb (mem f funcs)) (funcs_of t) in
-    if truthy bad_funcs then Some (if format_crashes bad_funcs funcs then GGenericError else GEvalError EUndefFun)
+    if truthy bad_funcs then Some (GEvalError EUndefFun)
     else
       let bad_sufs := filter (fun u => negb (mem u sufs)) (suffixes_of t) in
       if truthy bad_sufs then Some (GEvalError EUndefSuffix) else None.
